@@ -16,6 +16,6 @@ for p in "$@"; do
   out=$(VERIF_REPO="$d" VERIF_SCALE="${VERIF_SCALE:-1}" ./check "$prop" 2>&1); rc=$?
   nv=$(printf '%s\n' "$out" | grep -c '^VIOLATION')
   echo "rc=$rc violations=$nv  $p"
-  [ -n "$VERBOSE" ] && printf '%s\n' "$out" | grep -E 'VIOLATION|signature|HARNESS|KNOWN' | head -8
+  [ -n "$VERBOSE" ] && printf '%s\n' "$out" | grep -E 'VIOLATION|signature|dependence|HARNESS|KNOWN' | head -8
   rm -rf "$d"
 done
